@@ -79,6 +79,9 @@ def configs(tier, seed):
         for _ in range(120):
             aw, al = rnd.choice(geos)
             out.append({"aw": aw, "al": al, "seq": [rnd.choice(CORE) for _ in range(3)]})
+        for aw, al in ((12, 0), (16, 3), (33, 1), (64, 0)):       # the arithmetic is width-agnostic; wide maps cost nothing
+            for _ in range(6):
+                out.append({"aw": aw, "al": al, "seq": [rnd.choice(names) for _ in range(2)]})
     else:
         geos = [(2, 0), (3, 0), (3, 1), (4, 0), (4, 1), (4, 2), (5, 0), (6, 1)]
         for s in itertools.product(names, repeat=2):
